@@ -37,6 +37,7 @@ PL6 == {P3(Bt(c11, <<A1, B2>>), Q(c11, A1), Q(c11, B2))}
 PL7 == {P3(Bt(c11, <<A1, B2>>), Bt(c11, <<B2, A1>>), Q(c11, A1))}
 E4 == {"e1", "e2", "e3", "e4"}
 PT4 == {[e \in E4 |-> IF e = "e3" THEN Q(c11, B2) ELSE Q(c11, A1)]}
+PS3 == {P2(Bt(c11, <<A1, B2>>), Q(c11, A1))}
 PlansSmall == {P2(Q(c11, A1), Q(c11, A1)), P2(Q(c11, A1), Q(c11, B2)), P2(Bt(c11, <<A1, B2>>), Q(c11, A1))}
 
 \* Partial-order reduction for the larger instances: SendPrepare, WaiterWake, CheckArity and
